@@ -156,9 +156,10 @@ def run(sid, checks):
         sh(["git", "clean", "-fd", "src"], cwd=REPO)
     meta["checks"] = results
     # the first result ever recorded for a check is kept separately (what the checks did before any strengthening)
-    first = meta.setdefault("first_try_checks", {})
-    for c in checks:
-        first.setdefault(c, dict(results[c]))
+    if "round1_checks" not in meta:  # (rounds 1 and 2 recorded their first results under that name)
+        first = meta.setdefault("first_try_checks", {})
+        for c in checks:
+            first.setdefault(c, dict(results[c]))
     meta["detected_by"] = sorted(c for c, r in results.items() if r["exit"] == 1)
     json.dump(meta, open(os.path.join(dst, "meta.json"), "w"), indent=1)
     return 0
